@@ -2,6 +2,8 @@
 //! on generated inputs and writes one JSON case per line: abstract inputs + canonicalised real results.
 mod dump;
 mod history;
+mod io;
+mod panicx;
 mod rng;
 mod tree;
 
@@ -64,6 +66,7 @@ impl Ctx {
 }
 
 fn main() {
+    panicx::install();
     let args: Vec<String> = std::env::args().collect();
     if args.len() < 2 {
         eprintln!("usage: kpharness <op> [--seed N] [--tier quick|thorough] [--count N] [--out FILE]");
@@ -106,6 +109,8 @@ fn main() {
     match op.as_str() {
         "tree" => tree::run(&mut ctx),
         "history" => history::run(&mut ctx),
+        "ioread" => io::run_read(&mut ctx),
+        "iowrite" => io::run_write(&mut ctx),
         _ => {
             eprintln!("unknown op {}", op);
             std::process::exit(2);
